@@ -101,6 +101,16 @@ static std::vector<Primary> event_primaries(LoopProblem const& P, unsigned e, un
         // looper: gyroradius 0.165 cm in 1 T, no motion along B, hard vacuum (no physics)
         v.push_back(P.primary(1, 0.2, {-3.0, -3.0 + s, 0.0}, {1, 0, 0}, event_id));
     }
+    // events differ in their NUMBER of primaries (e%3 = 0: two more, 1: none, 2: one more), so
+    // that a smaller batch follows a larger one on the same state: per-stream primary
+    // buffers are high-water marks and must not replay their tail
+    Real3 const p0 = v.front().position;
+    std::array<double, 3> const at = {p0[0], p0[1], p0[2]};
+    unsigned const extra = (e % 3 == 0) ? 2 : (e % 3 == 2) ? 1 : 0;
+    if (extra >= 1)
+        v.push_back(P.primary(0, 1.5, at, {0, 1, 0}, event_id));
+    if (extra >= 2)
+        v.push_back(P.primary(0, 2.5, at, {0, 0, -1}, event_id));
     return v;
 }
 
